@@ -1,3 +1,5 @@
+//go:build verif_c11
+
 package main
 
 // C11 — StreamWriter output is equivalent to the in-memory API.
